@@ -116,6 +116,7 @@ type vpCfg struct {
 
 	// not part of the abstract record: an existing Redis to share (a restarted / second proxy instance)
 	AdvertisePKCE string
+	UnsetClaimNames bool // structured provider configuration without e-mail / groups claim names
 	shareRedis *miniredis.Miniredis `json:"-"`
 	shareIdP   *vpIdP               `json:"-"`
 }
@@ -500,6 +501,13 @@ func vpNewWorld(cfg *vpCfg) (*vpWorld, error) {
 				u.PassHostHeader = &ph
 			}
 			opts.UpstreamServers.Upstreams = append(opts.UpstreamServers.Upstreams, u)
+		}
+	}
+	if cfg.UnsetClaimNames {
+		// a provider defined in the structured configuration without claim names: the legacy flag defaults are not applied there
+		for i := range opts.Providers {
+			opts.Providers[i].OIDCConfig.EmailClaim = ""
+			opts.Providers[i].OIDCConfig.GroupsClaim = ""
 		}
 	}
 	if cfg.Structured {
